@@ -64,7 +64,11 @@ func main() {
 	case "grow-exitcodes":
 		os.Exit(clifam.GrowExitCodes())
 	case "selftest":
-		os.Exit(execfam.SelfTest())
+		rc := execfam.SelfTest()
+		if r := fpfam.SelfTest(); r > rc {
+			rc = r
+		}
+		os.Exit(rc)
 	case "grow":
 		// every specification grown beyond the listed properties, against the CLI
 		rc := 0
